@@ -250,8 +250,8 @@ def run(ctx: Ctx) -> int:
     ctx.cov["trace_events"] = len(lines)
     ctx.cov["trace_events_rejected"] = rejected_total
     ctx.assumptions += [
-        "rounding of inexact finite double results is CPython/hardware arithmetic and is out of model "
-        "(the spec marks those outcomes indefinite; %d of the double states)" % indef,
+        "inexact finite double results are specified by RoundNE (round-to-nearest-even on exact dyadic / quotient values, 53 bits, "
+        "subnormals, overflow to infinity); %d double states remained indefinite" % indef,
         "BigInt limb arithmetic is validated against TLC native integers at small width only (same algorithms at B=2^15)",
     ]
     return ctx.finish(rule="TLC enumerates (type, op, a, b) over the 64-bit boundary pool united with a small box, and the double pool; "
